@@ -193,6 +193,8 @@ def check_history(ctx, c):
     rng = np.random.default_rng(c["hseed"])
     dim = c["dim"]
     n = int(rng.integers(4, 9))
+    if c["variant"] in ("Simple", "Ordinary", "Detrended") and rng.random() < 0.25:
+        n = 1  # a single conditioning point: the kriging matrix holds nothing but the sill
     mkw = dict(dim=dim, var=round(float(rng.uniform(0.5, 2)), 3), len_scale=round(float(rng.uniform(1, 4)), 3), nugget=c["nugget"])
     if dim > 1:
         mkw["anis"] = [round(float(v), 3) for v in np.exp(rng.uniform(-0.7, 0.7, size=dim - 1))]
@@ -261,9 +263,11 @@ def check_history(ctx, c):
             elif op == "model_inplace_refresh":
                 mk = cfg["model_kw"]
                 mk["len_scale"] = round(float(rng.uniform(1, 4)), 3)
-                mk["var"] = round(float(rng.uniform(0.5, 2)), 3)
                 cs.model.len_scale = mk["len_scale"]
-                cs.model.var = mk["var"]
+                if rng.random() < 0.5:  # (sometimes only the geometry changes: the covariances among the conditions may then stay the same)
+                    mk["var"] = round(float(rng.uniform(0.5, 2)), 3)
+                    cs.model.var = mk["var"]
+                mk["var"] = float(cs.model.var)  # (truncated power law models: the variance follows the length scale)
                 if dim > 1:
                     mk["anis"] = [round(float(v), 3) for v in np.exp(rng.uniform(-0.7, 0.7, size=dim - 1))]
                     cs.model.anis = mk["anis"]
